@@ -84,13 +84,13 @@ def opTxn (op : String) (a : List String) (st : DrvState) : Option (DrvState × 
     let ls ← relTxn i lastSynced
     match loadOnce i.cfg i.env snap ls (← natArg now) (← natArg cutoff) with
     | .error e => pure (st, s!"err {e.cls}")
-    | .ok r => pure (st.setEnv id { i with env := r.env },
+    | .ok r => pure (st.setEnv id { i with env := r.env, lastRet := if r.localChanged then i.lastRet else r.txnID },
         s!"ok {r.txnID} {if r.localChanged then "1" else "0"} T{r.env.lastTxn}")
   | "txn.send", [id, now, cutoff] => do
     let i ← st.getEnv id
     match sendOnce i.cfg i.env (← natArg now) (← natArg cutoff) with
     | .error e => pure (st, s!"err {e.cls}")
-    | .ok r => pure (st.setEnv id { i with env := r.env }, s!"ok {r.txnID} T{r.env.lastTxn} {snapOut r.snap}")
+    | .ok r => pure (st.setEnv id { i with env := r.env, lastRet := r.txnID }, s!"ok {r.txnID} T{r.env.lastTxn} {snapOut r.snap}")
   | "txn.m2s", [id, now, cutoff] => do
     let i ← st.getEnv id
     let w : W := { dbis := i.env.dbis, dirty := false }
@@ -155,7 +155,7 @@ def opTxn (op : String) (a : List String) (st : DrvState) : Option (DrvState × 
     let ls ← relTxn i lastSynced
     match loadOnce i.cfg i.env snap ls (← natArg now) (← natArg cutoff) with
     | .error _ => pure (st, "ok refused")
-    | .ok r => pure (st.setEnv id { i with env := r.env }, "ok mirrored")
+    | .ok r => pure (st.setEnv id { i with env := r.env, lastRet := if r.localChanged then i.lastRet else r.txnID }, "ok mirrored")
   | "prop.c10.reload", [id, snap, now1, now2] => do
     let i ← st.getEnv id
     let snap ← parseSnap snap
@@ -177,7 +177,7 @@ def opTxn (op : String) (a : List String) (st : DrvState) : Option (DrvState × 
     let i ← st.getEnv id
     match sendOnce i.cfg i.env (← natArg now) (← natArg cutoff) with
     | .error e => pure (st, s!"ok refused {e.cls}")
-    | .ok r => pure (st.setEnv id { i with env := r.env }, "ok complete")
+    | .ok r => pure (st.setEnv id { i with env := r.env, lastRet := r.txnID }, "ok complete")
   | _, _ => none
 where
   relTxn (i : Inst) (s : String) : Option Nat :=
@@ -185,6 +185,7 @@ where
     | "T" => some i.env.lastTxn
     | "T-1" => some (i.env.lastTxn - 1)
     | "T+1" => some (i.env.lastTxn + 1)
+    | "R" => some i.lastRet
     | s => natArg s
 
 end Ls.Drv
